@@ -381,7 +381,15 @@ func ruleOutlinkFields(r *core.Reporter) {
 			{"Value", endsWith(".GetURL().Raw"), "item.GetURL().Raw"},
 			{"Via", endsWith(".GetSeedVia()"), "item.GetSeedVia()"},
 			{"Path", func(v ssa.Value, item string) bool {
-				return v != nil && ir.Path(v) == "hq.hopsToPath("+item+".GetURL().GetHops())"
+				if v == nil {
+					return false
+				}
+				pv := ir.Path(v)
+				// hopsToPath(hops), or its body written out: strings.Repeat("<c>", hops)
+				if pv == "hq.hopsToPath("+item+".GetURL().GetHops())" {
+					return true
+				}
+				return strings.HasPrefix(pv, "strings.Repeat(") && strings.HasSuffix(pv, ","+item+".GetURL().GetHops())")
 			}, "hopsToPath(item.GetURL().GetHops())"},
 		}},
 		{pkgLQ, "producerReceiver", lqURL, []want{
@@ -497,31 +505,41 @@ func ruleOutlinkFields(r *core.Reporter) {
 	// ---- hop encoding
 	h2p := p.Func(rel(pkgHQ), "hopsToPath")
 	p2h := p.Func(rel(pkgHQ), "pathToHops")
-	if h2p == nil || p2h == nil {
-		r.Undecided("hq.hop-encoding", "", "hopsToPath/pathToHops not found")
-		return
-	}
-	r.Analysed(h2p, p2h)
+	// either helper may have been folded into its caller: the encoder is the strings.Repeat of the package, the
+	// decoder its strings.Count, wherever they live
 	var c1, c2 string
 	ok1, ok2 := false, false
-	allInstrs(h2p, func(in ssa.Instruction) {
-		if c, ok := in.(*ssa.Call); ok && ir.IsCallTo(c, "strings.Repeat") {
-			if s, okc := ir.ConstString(c.Call.Args[0]); okc && ir.SameValue(c.Call.Args[1], h2p.Params[0]) {
-				c1, ok1 = s, true
-			}
+	for _, f := range p.FuncsInPkg(rel(pkgHQ)) {
+		if (h2p != nil && f != h2p) && (p2h != nil && f != p2h) {
+			continue
 		}
-	})
-	allInstrs(p2h, func(in ssa.Instruction) {
-		if c, ok := in.(*ssa.Call); ok && ir.IsCallTo(c, "strings.Count") {
-			if s, okc := ir.ConstString(c.Call.Args[1]); okc && ir.SameValue(c.Call.Args[0], p2h.Params[0]) {
-				c2, ok2 = s, true
+		allInstrs(f, func(in ssa.Instruction) {
+			c, ok := in.(*ssa.Call)
+			if !ok {
+				return
 			}
-		}
-	})
+			if ir.IsCallTo(c, "strings.Repeat") && (h2p == nil || f == h2p) {
+				if s, okc := ir.ConstString(c.Call.Args[0]); okc {
+					c1, ok1 = s, true
+					r.Analysed(f)
+				}
+			}
+			if ir.IsCallTo(c, "strings.Count") && (p2h == nil || f == p2h) {
+				if s, okc := ir.ConstString(c.Call.Args[1]); okc {
+					c2, ok2 = s, true
+					r.Analysed(f)
+				}
+			}
+		})
+	}
+	if !ok1 && !ok2 {
+		r.Undecided("hq.hop-encoding", "", "neither hopsToPath/pathToHops nor a Repeat/Count pair found in the hq package")
+		return
+	}
 	if ok1 && ok2 && c1 == c2 && len(c1) == 1 {
 		r.Held("hq.hop-encoding", 2, "hops ↔ path use Repeat/Count of the same character %q", c1)
 	} else {
-		r.Violated("hq.hop-encoding", fnPos(p, h2p), "hopsToPath and pathToHops do not use Repeat/Count with one and the same single character (%q vs %q): hop counts do not survive the round trip through crawl HQ", c1, c2)
+		r.Violated("hq.hop-encoding", "", "hopsToPath and pathToHops do not use Repeat/Count with one and the same single character (%q vs %q): hop counts do not survive the round trip through crawl HQ", c1, c2)
 	}
 }
 
